@@ -44,9 +44,14 @@ func DigestPart(name string, mk func() (*Env, Driver), depthQuick, depthThorough
 		// replica 1 walks the siblings in reverse order: what a path leads to may not depend on which other
 		// paths this process executed before it (state kept outside the stores would make it so)
 		reverse := os.Getenv("VERIF_PROCESS_REPLICA") == "1"
+		if os.Getenv("VERIF_PROCESS_REPLICA") == "2" {
+			// ... and replica 2 is a host in another time zone
+			time.Local = otherZone
+			defer func() { time.Local = hostZone }()
+		}
 		var out []pathDigest
-		var rec func(s *State, path []string)
-		rec = func(s *State, path []string) {
+		var rec func(s *State, path []string, results []byte)
+		rec = func(s *State, path []string, results []byte) {
 			if len(out) >= max {
 				return
 			}
@@ -62,7 +67,8 @@ func DigestPart(name string, mk func() (*Env, Driver), depthQuick, depthThorough
 					h.Write([]byte("|" + m + "|"))
 					h.Write(raw)
 				}
-				h.Write([]byte("|" + s.Last))
+				h.Write([]byte("|" + s.Last + "|"))
+				h.Write(results) // what the last transition returned (responses, events): results are compared too
 				out = append(out, pathDigest{Path: append([]string{}, path...), Digest: hex.EncodeToString(h.Sum(nil))[:32]})
 			}
 			if len(path) >= depth {
@@ -79,11 +85,14 @@ func DigestPart(name string, mk func() (*Env, Driver), depthQuick, depthThorough
 					return
 				}
 				c := s.branch()
+				e.Results = &ResultLog{}
 				d.Apply(e, c, op)
-				rec(c, append(append([]string{}, path...), op.Name))
+				res := e.Results.Sum()
+				e.Results = nil
+				rec(c, append(append([]string{}, path...), op.Name), res)
 			}
 		}
-		rec(d.Init(e), nil)
+		rec(d.Init(e), nil, nil)
 		return PartReport{Name: "digest:" + name, Exhaustive: true, Bounds: map[string]interface{}{"digests": out, "depth": depth}}
 	}}
 }
@@ -162,7 +171,7 @@ func compareProcesses(property, name, tier string, n int) ([]Violation, int, str
 					how = "two operating-system processes that executed the other paths in a different order"
 				}
 				return []Violation{{Finding: F(fmt.Sprintf("%s/process-differs/%s/%s", property, name, opKind(p[len(p)-1])),
-					"after the same history %v the application state / exported genesis differs between %s (process 0: %s, process %d: %s): the result depends on something the process drew for itself or kept from earlier executions, not on chain data",
+					"after the same history %v the application state / exported genesis / the results of the last transition differ between %s (process 0: %s, process %d: %s): the result depends on something the process drew for itself or kept from earlier executions, not on chain data",
 					p, how, x.Digest, k, y.Digest), Path: append([]string{"<cross-process>"}, p...)}}, len(a), ""
 			}
 		}
